@@ -21,6 +21,7 @@
 
 #include <arpa/inet.h>
 #include <memory>
+#include <signal.h>
 #include <sys/wait.h>
 #include <unistd.h>
 
@@ -333,6 +334,20 @@ static rc::Gen<Case> gen()
     });
 }
 
+// The shared driver installs its own SIGSEGV handler (to dump the current case) without an alternate stack,
+// so a stack overflow -- what a compression-pointer loop without the depth guard causes -- would kill the
+// process silently.  ASan's own handler runs on an alternate stack, reports "stack-overflow" and still calls
+// the driver's death callback, so it is put back before the first decode.
+static struct sigaction AsanSegvHandler;
+static void restoreAsanSegvHandler()
+{
+    static bool done = false;
+    if (done) return;
+    done = true;
+    if (AsanSegvHandler.sa_handler != SIG_DFL && AsanSegvHandler.sa_handler != SIG_IGN)
+        sigaction(SIGSEGV, &AsanSegvHandler, nullptr);
+}
+
 // ------------------------------------------------------------------ oracle
 
 static bool allZero(const void *p, size_t n)
@@ -343,6 +358,7 @@ static bool allZero(const void *p, size_t n)
 
 static vp::Verdict checkDecode(const Case &c, vp::Ctx &ctx)
 {
+    restoreAsanSegvHandler();
     const std::string &b = c.bytes;
     if (b.size() > 20000) { ctx.excluded("datagram larger than the harness bound"); return vp::pass(); }
     const RefMsg ref = refDecode(b);
@@ -536,6 +552,7 @@ static vp::Verdict checkQuery(const QCase &c, vp::Ctx &ctx)
         ctx.label("known-class:edns-build-not-executed");
         return vp::fail("query:ubsan-null-memcpy-source-in-rfc1035RRPack-for-OPT-record", ednsReport);
     }
+    if (c.edns > 0 && c.direct) vp::current().crashPath.clear(); // replay-only in-process run: do not leave a crash dump next to the replay file
     sz = build();
     while (!wantName.empty() && wantName.back() == '.') wantName.pop_back();
     if (sz < 17 || static_cast<size_t>(sz) > bufSize) return vp::fail("query:implausible-size", std::to_string(sz));
@@ -588,6 +605,7 @@ static std::function<Case(FuzzedDataProvider &)> fuzzCase = nullptr;
 
 static void registerAll()
 {
+    sigaction(SIGSEGV, nullptr, &AsanSegvHandler);
     vp::add<Case>("decode", gen(), checkDecode, show, parse, 4.0, fuzzCase);
     vp::add<QCase>("build_query", genQ(), checkQuery, showQ, parseQ, 1.0);
 }
